@@ -136,6 +136,7 @@ type Contracts struct {
 	Preds   map[string]*PredDef
 	Axioms  map[string][]*Clause // per package
 	Lemmas  map[string][]*Clause
+	Theorems map[string][]*Clause // proved on their own (pure arithmetic), never assumed anywhere: bridge lemmas
 	GlobalInv map[string][]*Clause // pkgpath.name -> invariants
 	StableKeys [][2]string // (pkg, descriptor): heap locations never written after construction (kept across arbitrary calls)
 	Ifaces  map[string]*FuncContract // key: pkg.I.Method
@@ -144,7 +145,7 @@ type Contracts struct {
 	Nclause int
 }
 
-var keywordRe = regexp.MustCompile(`^(spec|pred|axiom|lemma|globalinv|stablekeys|type|func|iface|functype|extern|props|atomic|holds|at_call|after_call|requires|ensures|ensures_panic|ghost_ensures|modifies|loop|assume|nopanic|maypanic|trusted|pure|readsclock|noaxioms|onlyaxioms|wiring|params|immutable|stable|guards|sink|protects|guarded_by|ghost|lockinv|extsync|mutators|setup|strings|noinline)\b`)
+var keywordRe = regexp.MustCompile(`^(spec|pred|axiom|lemma|theorem|globalinv|stablekeys|type|func|iface|functype|extern|props|atomic|holds|at_call|after_call|requires|ensures|ensures_panic|ghost_ensures|modifies|loop|assume|nopanic|maypanic|trusted|pure|readsclock|noaxioms|onlyaxioms|wiring|params|immutable|stable|guards|sink|protects|guarded_by|ghost|lockinv|extsync|mutators|setup|strings|noinline)\b`)
 
 var labelRe = regexp.MustCompile(`^([A-Za-z_][A-Za-z_0-9]*):([^:]|$)`)
 var propsRe = regexp.MustCompile(`^\{([A-Z0-9, ]+)\}\s*`)
@@ -152,7 +153,7 @@ var propsRe = regexp.MustCompile(`^\{([A-Z0-9, ]+)\}\s*`)
 func NewContracts() *Contracts {
 	return &Contracts{
 		Funcs: map[string]*FuncContract{}, Types: map[string]*TypeContract{}, Specs: map[string]*SpecFunc{},
-		Preds: map[string]*PredDef{}, GlobalInv: map[string][]*Clause{}, Axioms: map[string][]*Clause{}, Lemmas: map[string][]*Clause{}, Ifaces: map[string]*FuncContract{}, Externs: map[string]*FuncContract{},
+		Preds: map[string]*PredDef{}, GlobalInv: map[string][]*Clause{}, Axioms: map[string][]*Clause{}, Lemmas: map[string][]*Clause{}, Theorems: map[string][]*Clause{}, Ifaces: map[string]*FuncContract{}, Externs: map[string]*FuncContract{},
 	}
 }
 
@@ -264,7 +265,7 @@ func (cs *Contracts) LoadContractFile(path, pkg string) error {
 			}
 			cs.GlobalInv[pkg+"."+c.Label] = append(cs.GlobalInv[pkg+"."+c.Label], c)
 			curF, curT = nil, nil
-		case "axiom", "lemma":
+		case "axiom", "lemma", "theorem":
 			c, err := mkClause(kw, rest, l)
 			if err != nil {
 				return err
@@ -274,6 +275,8 @@ func (cs *Contracts) LoadContractFile(path, pkg string) error {
 			}
 			if kw == "axiom" {
 				cs.Axioms[pkg] = append(cs.Axioms[pkg], c)
+			} else if kw == "theorem" {
+				cs.Theorems[pkg] = append(cs.Theorems[pkg], c)
 			} else {
 				cs.Lemmas[pkg] = append(cs.Lemmas[pkg], c)
 			}
